@@ -4,3 +4,4 @@ import MatidModel.Table
 import MatidModel.Chirality
 import MatidModel.Primitive
 import MatidModel.WyckoffParams
+import MatidModel.Select
